@@ -45,15 +45,18 @@ class Minimiser:
         self.candidates = 0
         self.max_candidates = max_candidates
         self.best = [dict(s) for s in steps if s["id"] <= sid]
+        self.full = [dict(s) for s in steps]
+        self.flaky = False
+        self.observe = "only"
         self.last_detail = None
 
-    def still_fails(self, steps):
+    def still_fails(self, steps, whole=False):
         if self.candidates >= self.max_candidates:
             return False
         if not any(s["id"] == self.sid for s in steps):
             return False
         self.candidates += 1
-        res = sh.evaluate_program(steps, self.envs, fuel=self.fuel, shims=False, only={self.sid})
+        res = sh.evaluate_program(steps, self.envs, fuel=self.fuel, shims=False, only=None if whole else {self.sid})
         for d in res["divergences"]:
             if d["id"] == self.sid and d["class"] == self.klass:
                 self.last_detail = d["detail"]
@@ -61,8 +64,27 @@ class Minimiser:
         return False
 
     def run(self):
-        if not self.still_fails(self.best):
-            return None  # not reproducible after truncation: caller reports the original
+        """Returns the minimised step list, or None when the divergence could not be seen again at all.
+
+        A defect whose manifestation depends on object addresses (id()-keyed or weakly keyed memo) is
+        not a function of the program alone: heap layout differs between the search run and a re-run.
+        Such a divergence is retried a few times, first in the cheap form (truncated program, only the
+        failing step observed), then exactly as the search ran it (whole program, every step observed);
+        ``self.flaky`` records that a retry was needed and ``self.observe`` which form reproduced."""
+        self.flaky = False
+        self.observe = "only"
+        full = self.full
+        for attempt in range(3):
+            if self.still_fails(self.best):
+                break
+            self.flaky = True
+        else:
+            for attempt in range(3):
+                if self.still_fails(full, whole=True):
+                    self.best = full
+                    self.observe = "all"
+                    return self.best  # not minimised: reductions would change the heap layout again
+            return None
         self._drop_steps()
         self._drop_faults()
         self._shrink_asts()
@@ -183,20 +205,25 @@ def write_replay(path, *, steps, envs, sid, klass, detail, meta):
     return doc
 
 
-def replay(doc, *, fuel=None):
-    """Re-run a replay document. Returns (reproduced: bool, observed divergence or None).
+def replay(doc, *, fuel=None, attempts=1):
+    """Re-run a replay document. Returns (reproduced: bool, observed divergence or None, attempts used).
 
     "Reproduced" = the failing step diverges again with the same class and the same
-    warm and cold observables (texts, flags, truth vectors) as recorded.
+    warm and cold observables (texts, flags, truth vectors) as recorded. ``attempts`` > 1 is only
+    for documents marked flaky (address-dependent defects): the run is repeated until it reproduces.
     """
     steps = doc["steps"]
     envs = doc["envs"]
     sid = doc["failing_step"]
-    res = sh.evaluate_program(steps, envs, fuel=fuel or doc.get("fuel", sh.DEFAULT_FUEL), shims=False, only={sid})
-    if res["harness"]:
-        raise sh.HarnessError(f"replay: {res['harness']}")
-    for d in res["divergences"]:
-        if d["id"] == sid:
-            same = d["class"] == doc["class"] and d["detail"] == doc["detail"]
-            return same, d
-    return False, None
+    only = None if doc.get("observe") == "all" else {sid}
+    last = None
+    for attempt in range(1, max(1, attempts) + 1):
+        res = sh.evaluate_program(steps, envs, fuel=fuel or doc.get("fuel", sh.DEFAULT_FUEL), shims=False, only=only)
+        if res["harness"]:
+            raise sh.HarnessError(f"replay: {res['harness']}")
+        for d in res["divergences"]:
+            if d["id"] == sid:
+                last = d
+                if d["class"] == doc["class"] and d["detail"] == doc["detail"]:
+                    return True, d, attempt
+    return False, last, attempts
